@@ -90,11 +90,16 @@ func newClusterRun(prop string, p *harness.Plan) (*crun, error) {
 		},
 	}
 	cfg.NoLoops = p.P("no_loops", 0) == 1
+	cfg.StartCutRate = float64(p.P("startcut_ppm", 0)) / 1e6
 	cfg.KeepTrace = os.Getenv("VERIF_TRACE") != ""
 	cfg.LogStore = os.Getenv("VERIF_LOGSTORE") != ""
 	c, err := cluster.New(cfg)
 	if err != nil {
 		return nil, err
+	}
+	if k := p.P("bootstop_k", 0); k > 0 {
+		// the first start of one node is cut right before its k-th commit
+		c.Nodes[int(p.P("bootstop_node", 0))%cfg.Nodes].StartCrashAt = int(k)
 	}
 	r := &crun{prop: prop, plan: p, c: c, out: harness.NewOutcome(), rng: core.NewRng(core.SplitMix64(p.Seed ^ 0xc1)),
 		coins: map[int][]*cluster.Coin{}, txOf: map[int]*common.VersionedTransaction{}, conflicts: map[crypto.Hash]bool{}, lostQueue: map[int]bool{},
@@ -325,6 +330,10 @@ func (r *crun) apply(op harness.Op, idx int) {
 		}
 		until := c.Q.Now + time.Duration(op.A)*time.Millisecond
 		r.fault("crash.step_boundary", until)
+		if op.C > 0 {
+			n.StartCrashAt = int(op.C) // and the restart itself is cut once, at its C-th commit
+			r.fault("crash.restart_cut_armed", until+6*time.Second)
+		}
 		c.Q.At(until, "restart", func() {
 			if err := c.Restart(n); err != nil {
 				c.Violate("C22", "restart-failed", err.Error(), n)
